@@ -133,11 +133,20 @@ def loop_element(prog, chk):
             continue
         o = R.origin(b, t["op"], carriers={})
         if o[0] == "rv" and o[1].get("k") == "binop" and o[1]["op"] in ("Ge", "Lt", "Gt", "Le", "Eq", "Ne"):
-            names = {b.local_name((b.chase(o[1][s])[1] or (0, ()))[0]) if b.chase(o[1][s])[0] == "place" else None for s in ("a", "b")}
-            if "loop_count" in names or _mentions_count(b, o[1]):
+            # the pass counter (incremented by one inside the loop) against a loop-invariant plain local: the count
+            sides = []
+            for sd in ("a", "b"):
+                ch = b.chase(o[1][sd])
+                sides.append(ch[1] if ch[0] == "place" else None)
+            def is_counter(pl):
+                return pl is not None and not pl[1] and any(bb_ in blocks for (bb_, _, _) in R.increments_of(b, P([pl[0], []])))
+            def is_invariant_local(pl):
+                return pl is not None and not pl[1] and not any(d[0] in blocks for d in b.defs_of(pl[0]))
+            if (is_counter(sides[0]) and is_invariant_local(sides[1])) or (is_counter(sides[1]) and is_invariant_local(sides[0])):
                 tt, ft = R.switch_targets_bool(t)
-                leave = tt if o[1]["op"] in ("Ge", "Gt", "Eq") else ft
-                ok = leave not in blocks and _reaches_before(b, x, bb_body, blocks, h) and o[1]["op"] == "Ge"
+                op = o[1]["op"] if is_counter(sides[0]) else {"Ge": "Le", "Le": "Ge", "Gt": "Lt", "Lt": "Gt"}.get(o[1]["op"], o[1]["op"])
+                leave = tt if op in ("Ge", "Gt", "Eq") else ft
+                ok = leave not in blocks and _reaches_before(b, x, bb_body, blocks, h) and op == "Ge"
     chk.ob(ok, "A13.loop-skeleton", "LoopElement:count-test", where, "`iteration >= count` is tested at the top of each pass and leaves the loop", "the count test is missing, not `iteration >= count`, or does not precede the body")
     # (e)/(f) loop variable bound before the body, advanced after it
     sets = [(bb, t) for (bb, t, c) in b.call_sites(R.path_is(SETVAR)) if bb in blocks]
